@@ -102,7 +102,7 @@ class LevelQuantify(Contract):
     def requires(self, c, a):
         lu = VObj("LogarithmicUnit", c.f(a.self, "unit"))
         yield "wf-unit", wf_lu(c, lu)
-        yield "alive", z3.And(c.alive(a.self), Num.nkind(c.f(a.self, "magnitude")) != K_DEC)
+        yield "alive", c.alive(a.self)  # int, float and Decimal level magnitudes
 
     def ensures(self, c, a, r):
         o = c.old
